@@ -161,7 +161,7 @@ func c17Run(r *engine.Run) int {
 		}
 	}
 	n := 0
-	engine.Map("c17", cases, func(i int, c json.RawMessage, res *engine.Result) {
+	r.MapBudget("c17", cases, func(i int, c json.RawMessage, res *engine.Result) {
 		r.Add("c17", c, res)
 		n++
 		if n%41 == 1 && res.Data != nil {
